@@ -123,3 +123,85 @@ pub fn stream_hash(code: &str, toks: &[IdTok]) -> u64 {
     }
     h
 }
+
+/// A small per-language alphabet for the bounded-exhaustive stream workloads: one word of every class the grammar and
+/// the lone-number policy distinguish (zero, units, a tens word, the hundred / thousand / million words, an ordinal, the
+/// conjunction, the decimal-separator word, a linking word, a filler, two punctuation tokens).
+pub fn small_alphabet(lex: &Lexicon) -> Vec<String> {
+    let code = lex.code;
+    let info = spell::info(code);
+    let last = |s: String| s.split(|c: char| c == ' ' || c == '-').last().unwrap_or("").to_string();
+    let mut v: Vec<String> = vec![
+        info.zero.to_string(),
+        info.digits[1].to_string(),
+        info.digits[2].to_string(),
+        info.digits[9].to_string(),
+        spell::cardinal(code, 12),
+        spell::cardinal(code, 20),
+        last(spell::cardinal(code, 100)),
+        last(spell::cardinal(code, 1000)),
+        last(spell::cardinal(code, 2_000_000)),
+        spell::ordinals(code, 3).first().map(|o| o.text.clone()).unwrap_or_default(),
+        info.conj.to_string(),
+        info.sep.to_string(),
+        lex.linking.iter().find(|w| w.as_str() != info.conj).cloned().unwrap_or_default(),
+        lex.fillers.first().cloned().unwrap_or_default(),
+        ",".to_string(),
+        ".".to_string(),
+    ];
+    // the words the ambiguity passes react to
+    match code {
+        "fr" => v.push("le".to_string()),
+        "en" => v.push("o".to_string()),
+        _ => {}
+    }
+    v.retain(|w| !w.is_empty());
+    let mut seen = std::collections::BTreeSet::new();
+    v.retain(|w| seen.insert(w.clone()));
+    v
+}
+
+/// the `idx`-th stream of exactly `depth` tokens over `alpha` (mixed-radix decoding), no whitespace tokens, no hints
+pub fn nth_small_stream(alpha: &[String], depth: u32, idx: u64) -> Vec<IdTok> {
+    let k = alpha.len() as u64;
+    let mut x = idx;
+    (0..depth)
+        .map(|i| {
+            let t = IdTok::new(i as u64, &alpha[(x % k) as usize]);
+            x /= k;
+            t
+        })
+        .collect()
+}
+
+/// Drive `f` over EVERY stream of 1..=max_depth tokens over the small alphabet of every language, sharded over workers;
+/// returns (streams visited, whether the enumeration was cut by `stop`).
+pub fn for_each_small_stream(
+    lexicons: &[Lexicon],
+    max_depth: u32,
+    w: usize,
+    nw: usize,
+    stop: &dyn Fn() -> bool,
+    f: &mut dyn FnMut(&'static str, &[IdTok]),
+) -> (u64, bool) {
+    let mut visited = 0u64;
+    for lex in lexicons {
+        let code = lex.code;
+        let alpha = small_alphabet(lex);
+        let k = alpha.len() as u64;
+        for depth in 1..=max_depth {
+            let total = k.pow(depth);
+            let mut idx = w as u64;
+            while idx < total {
+                if visited % 2048 == 0 && stop() {
+                    return (visited, true);
+                }
+                let toks = nth_small_stream(&alpha, depth, idx);
+                f(code, &toks);
+                visited += 1;
+                idx += nw as u64;
+            }
+        }
+    }
+    (visited, false)
+}
